@@ -434,7 +434,7 @@ def _jobs_for(prop, tier):
         return [j for j in jobs_option_below(tier) if j[1][3] == 'combinations'] + jobs_combinations(tier) + jobs_axis0(tier, 'combinations')
     if prop == 'C03':
         return jobs_c03(tier) + jobs_option_reduce(tier) + jobs_axis(tier, ('reduce',)) + jobs_reduce_nonlocal(tier)
-    return {'C02': jobs_c02, 'C03': jobs_c03, 'C04': jobs_c04, 'C06': (lambda t: jobs_c06(t) + jobs_axis(t, ('sort', 'argsort')) + jobs_numpy_sort(t) + jobs_sort_nonlocal(t) + jobs_option_sort(t) + jobs_option_sort_above(t) + jobs_option_argsort(t) + jobs_string_argsort(t)), 'C08': (lambda t: jobs_c08(t) + jobs_numpy(t) + jobs_union(t) + jobs_reverse_merge(t) + jobs_record_merge(t) + jobs_list_merge(t) + [j for j in jobs_record_named(t) if j[0] is h_record_mergemany_named] + jobs_merge_union(t) + jobs_union_ops(t)), 'C17': (lambda t: jobs_c17(t) + jobs_record_keys(t)), 'C12': jobs_numpy, 'C10': (lambda t: jobs_c10(t) + [j for j in jobs_record_named(t) if j[0] is h_record_field_key] + jobs_project(t) + [j for j in jobs_option_below(t) if j[1][3] == 'getitem_field'] + jobs_record_setitem(t)), 'C05': jobs_c05, 'C09': jobs_c09}.get(prop, lambda t: [])(tier)
+    return {'C02': (lambda t: jobs_c02(t) + jobs_numpy_toregular(t)), 'C03': jobs_c03, 'C04': (lambda t: jobs_c04(t) + jobs_numpy_toregular(t)), 'C06': (lambda t: jobs_c06(t) + jobs_axis(t, ('sort', 'argsort')) + jobs_numpy_sort(t) + jobs_sort_nonlocal(t) + jobs_option_sort(t) + jobs_option_sort_above(t) + jobs_option_argsort(t) + jobs_string_argsort(t)), 'C08': (lambda t: jobs_c08(t) + jobs_numpy(t) + jobs_union(t) + jobs_reverse_merge(t) + jobs_record_merge(t) + jobs_list_merge(t) + [j for j in jobs_record_named(t) if j[0] is h_record_mergemany_named] + jobs_merge_union(t) + jobs_union_ops(t)), 'C17': (lambda t: jobs_c17(t) + jobs_record_keys(t)), 'C12': jobs_numpy, 'C10': (lambda t: jobs_c10(t) + [j for j in jobs_record_named(t) if j[0] is h_record_field_key] + jobs_project(t) + [j for j in jobs_option_below(t) if j[1][3] == 'getitem_field'] + jobs_record_setitem(t)), 'C05': jobs_c05, 'C09': jobs_c09}.get(prop, lambda t: [])(tier)
 
 
 # ------------------------------------------------------------------------------------------------ C01: getitem_next of list nodes
@@ -5500,3 +5500,81 @@ def jobs_string_argsort(tier):
         q += [((0, 0), (0, 1)), ((1, 0), (0, 0)), ((0, 1, 1, 0, 0), (0, 0, 0, 0, 1)), ((1, 0, 1, 0), (0, 1, 2, 2)), ((0, 0, 0), (0, 0, 0)), ((1,), (0,))]
     q += [((1, 1), (0, 0))]
     return [(h_string_argsort, a, 1800) for a in q]
+
+
+# ------------------------------------------------------------------------------------------------ C02 / C04: an n-dimensional NumpyArray as nested regular lists
+def build_numpynd(nc, name, shape, dtype='int64'):
+    """contiguous n-dimensional NumpyArray over a symbolic buffer -> (this, flat element terms)"""
+    from .cpp01 import struct_of
+    code, kind, isz, fmt, sgn = NP_DTYPES[dtype]
+    mod = module_of(SRC['NA'])
+    fo, sz, al, fields = mod.types.struct_layout(struct_of(mod, '_ZNK7awkward10NumpyArray6lengthEv'))
+    total = 1
+    for x in shape:
+        total *= x
+    nd = len(shape)
+    data = nc.m.array(name + '_data', kind, max(1, total), const=True)
+    a0 = z3.Array(name + '_data', z3.BitVecSort(64), z3.BitVecSort(kind[1]))
+    strides, acc = [0] * nd, isz
+    for i in reversed(range(nd)):
+        strides[i] = acc
+        acc *= shape[i]
+    nc.m.record(name + '_shape', {8 * i: (BV(x), 8) for i, x in enumerate(shape)}, const=True)
+    nc.m.record(name + '_strides', {8 * i: (BV(x), 8) for i, x in enumerate(strides)}, const=True)
+    cells = nc.content_header(name, nc.vptr_of('N7awkward10NumpyArrayE', 'NA'))
+    cells.update({fo[1]: (data, 8), fo[1] + 8: (NULL, 8), fo[2]: (BV(0, 32), 4),
+                  fo[4]: (Ptr(name + '_shape', 0), 8), fo[4] + 8: (Ptr(name + '_shape', 8 * nd), 8), fo[4] + 16: (Ptr(name + '_shape', 8 * nd), 8),
+                  fo[5]: (Ptr(name + '_strides', 0), 8), fo[5] + 8: (Ptr(name + '_strides', 8 * nd), 8), fo[5] + 16: (Ptr(name + '_strides', 8 * nd), 8),
+                  fo[6]: (BV(0), 8), fo[7]: (BV(isz), 8),
+                  fo[8]: (Ptr(name, fo[8] + 16), 8), fo[8] + 8: (BV(1), 8), fo[8] + 16: (BV(ord(fmt), 8), 1), fo[8] + 17: (BV(0, 8), 1),
+                  fo[9]: (BV(code, 32), 4)})
+    this = nc.m.record(name, cells, const=True)
+    return this, [z3.Select(a0, BV(i)) for i in range(total)]
+
+
+@guard
+def h_numpy_toregular(shape):
+    """NumpyArray::toRegularArray of a contiguous n-dimensional array: nested regular lists of exactly the same shape - every dimension keeps its
+    length, also around a dimension of size zero - over the same values in row-major order"""
+    shape = tuple(shape)
+    total = 1
+    for x in shape:
+        total *= x
+    nc = NodeCtx(['NA', 'RA', 'IDX', 'CNT', 'UTL', 'KD', 'IDS'], [], unwind=max(12, 2 * len(shape) + total + 8))
+    nc.m.eng.stubs.update(string_stubs(nc))
+    this, xs = build_numpynd(nc, 'arr', shape)
+    nc.m.record('ret', {})
+    out = nc.m.call('_ZNK7awkward10NumpyArray14toRegularArrayEv', [Ptr('ret', 0), this])
+    obls = [('toRegularArray does not raise', out.raised)]
+
+    def nest(d, base):
+        if d == len(shape) - 1:
+            return [Elem(xs[base + i]) for i in range(shape[d])]
+        step = 1
+        for x in shape[d + 1:]:
+            step *= x
+        return [nest(d + 1, base + i * step) for i in range(shape[d])]
+    want = nest(0, 0)
+    for g, res in nodeh.decode_cases(nc, out.mem, nc.m.cell('ret', 0)):
+        if res is None:
+            obls.append(('a result is returned', z3.And(g, z3.Not(out.raised))))
+        else:
+            d_, depth = res, 0
+            while d_['cls'] == 'regular':
+                d_, depth = d_['content'], depth + 1
+            obls.append(('one regular level per dimension after the first', z3.And(g, z3.BoolVal(depth != len(shape) - 1))))
+            obls += [(nm, z3.And(g, c)) for nm, c in nodeh.compare_value(res, want)]
+
+    def replay(model, ent):
+        import numpy as np
+        prog = 'i64nd %d %s %s toregular' % (len(shape), ' '.join(map(str, shape)), ' '.join(map(str, range(total))))
+        return akrun_check(prog, np.arange(total).reshape(shape).tolist(), 'NumpyArray of shape %s as nested regular lists' % (shape,))
+    return mdischarge(nc.m, 'NumpyArray::toRegularArray shape=%s' % ','.join(map(str, shape)), obls, [], replay=replay,
+                      extra=dict(bounds='shape %s concrete (case split), int64 values symbolic, contiguous' % (shape,)))
+
+
+def jobs_numpy_toregular(tier):
+    q = [(3,), (2, 3), (2, 3, 0), (2, 0, 3), (2, 1, 2)]
+    if tier != 'quick':
+        q += [(0,), (0, 2), (2, 0), (0, 2, 3), (2, 2, 3, 0), (3, 2, 0, 2), (1, 1, 1), (2, 2, 2), (3, 1, 0)]
+    return [(h_numpy_toregular, (s_,), 1800) for s_ in q]
